@@ -36,6 +36,24 @@ inline std::vector<LN> cases(bool thorough, unsigned nctx = 3)
     return out;
 }
 // ascii_only: the lead byte 0xC3 is replaced by '~' (for operations that validate their result as UTF-8)
+// patterns longer than a 256-byte (and a 1 KiB) scratch area: fewer positions and rotations, same perturbations and contexts
+inline std::vector<LN> cases_very_long()
+{
+    std::vector<LN> out;
+    for (unsigned L : {255u, 256u, 257u, 258u, 300u, 1030u}) {
+        std::vector<unsigned> ps = {0, 1, L / 2, 254, 255, 256, 257, L - 2, L - 1};
+        for (unsigned pos : ps) {
+            if (pos >= L) continue;
+            for (unsigned rot : {0u, 5u})
+                for (unsigned kind = 0; kind < 3; ++kind)
+                    for (unsigned ctx = 0; ctx < 3; ++ctx) {
+                        if (kind == 2 && (pos != 0 || rot != 0)) continue;
+                        out.push_back(LN{L, pos, rot, kind, ctx});
+                    }
+        }
+    }
+    return out;
+}
 inline void make(const LN &q, std::string &text, std::string &pat, bool ascii_only = false)
 {
     pat.clear();
